@@ -4,7 +4,7 @@ T^-1 (fx - fy gy^-1 gx) computed here with dense NumPy from the assembled matric
 sign of the real part; every mode's participation factors are non-negative and sum to one; after all generator inertias are changed
 in one call the second EIG.run reports the spectrum of the changed system.
 """
-CASES = ['kundur/kundur_full.xlsx', 'ieee14/ieee14_full.xlsx']
+CASES = ['kundur/kundur_full.xlsx', 'ieee14/ieee14_full.xlsx', 'mixed:kundur']
 
 
 def reference(ss):
@@ -45,7 +45,7 @@ def run():
     n = 0
     for case in CASES:
         with contextlib.redirect_stdout(io.StringIO()), contextlib.redirect_stderr(io.StringIO()):
-            ss = andes.load(andes.get_case(case), default_config=True, no_output=True)
+            ss = andes.load(__import__('contracts.mixed_case', fromlist=['resolve']).resolve(case), default_config=True, no_output=True)
             ss.PFlow.run()
             ok = ss.EIG.run()
         if np.any(np.array(ss.dae.Tf) == 0):
